@@ -374,12 +374,30 @@ def main(tier='quick'):
                      '%s in scenario %s given=%s placement=%s: r2a=%s a2r=%s reqErr=%s accErr=%s services=%s'
                      % (clause, c['scn'], c['given'], c['placement'], [(x['k'], x['f']) for x in c['r2a']], [(x['k'], x['f']) for x in c['a2r']],
                         c['reqErr'], c['accErr'], c['services']), replay={'scn': c['scn'], 'given': c['given'], 'placement': c['placement']})
+    # ---- the life-cycle model: TLC explores AssocLife exhaustively, every class of behaviour is driven on S3 and
+    # the observation validated against the specification (TLC infers the unlogged provider steps)
+    from . import lifedrive
+    mcs, jobs = lifedrive.plan(tier, rng)
+    life = lifedrive.run_many(jobs, procs=8)
+    for c in life:
+        if not c.pop('handler_finished'):
+            v.report({'site': 'asceprovider.handle', 'clause': 'handler-never-finished', 'scn': 'life'},
+                     'the accepting handler thread did not finish within 20 s following %s' % c['script'], replay={'life': {'script': c['script'], 'values': c['values'], 'ordered': c['ordered']}})
+    lres, lstats = lifedrive.validate(life)
+    for c, r in zip(life, lres):
+        if not r[0]:
+            key, txt = lifedrive.explain(c, r)
+            v.report(key, txt, replay={'life': {'script': c['script'], 'values': c['values'], 'ordered': c['ordered']}})
     ev = {'tier': tier, 'level': 'model_checking',
           'coverage': {'evaluations': len(cases), 'distinct_nontrivial': len({(c['scn'], str(c['given']), c['placement']) for c in cases}),
                        'rule': 'one real two-sided association (application, handler and provider threads over a socketpair) per scenario; '
                                'distinct = distinct (scenario kind, values given, placement)',
-                       'states': max(stats['states'], 1), 'transitions': max(stats['generated'], 1),
-                       'traces_validated_against_impl': len(cases),
+                       'states': sum(r.distinct for _, r, _ in mcs), 'transitions': sum(r.generated for _, r, _ in mcs),
+                       'model_checking': {cfg: dict(r.summary(), terminal_behaviours=n) for cfg, r, n in mcs},
+                       'life_cycle_behaviours_driven': len(life),
+                       'life_cycle_program_pairs': len({(tuple(a for a in c['script'] if a.startswith('Rq')), tuple(a for a in c['script'] if a.startswith('Ac'))) for c in life}),
+                       'trace_validation_states': lstats['states'],
+                       'traces_validated_against_impl': len(cases) + len(life),
                        'samples': [cases[0], cases[len(cases) // 2]], 'exhaustive': False},
           'assumptions': ['real threads: placements are enforced by the scenario code (handlers wait / act), not by timing',
                           'the acceptor-side error is observed from inside a custom SCP role waiting in receive()']}
@@ -388,6 +406,19 @@ def main(tier='quick'):
 
 def replay(doc):
     r = doc['replay']
+    if 'life' in r:
+        from . import lifedrive
+        j = r['life']
+        kw = {'triple': tuple(j['values']['triple']), 'rq_reason': j['values']['rq_reason'], 'ac_reason': j['values']['ac_reason'], 'ordered': j['ordered']}
+        bad = 0
+        for _ in range(3):
+            c = lifedrive.run_script(j['script'], **kw)
+            res, _ = lifedrive.validate([c])
+            print('TLC verdict: %r' % (res[0],))
+            if not res[0][0]:
+                print(lifedrive.explain(c, res[0])[1])
+                bad = 1
+        return bad
     obs = scenario(r['scn'], tuple(r['given']), r['placement'] if r['placement'] not in ('None',) else None, random.Random(0))
     obs.pop('handler_finished')
     obs['placement'] = str(r['placement'])
